@@ -11,6 +11,30 @@ pub fn background(t: u64, kinds: Vec<String>, stop: Arc<AtomicBool>) -> u64 {
     let mut x = 0x9E3779B97F4A7C15u64.wrapping_mul(t + 1);
     while !stop.load(Ordering::SeqCst) {
         for k in &kinds {
+            if k == "JitterRng" {
+                // an unscripted JitterRng over its own counter timer (irregular increments)
+                let c = std::sync::atomic::AtomicU64::new(x);
+                let step = std::sync::atomic::AtomicU64::new(1);
+                let mut j = rand_jitter::JitterRng::new_with_timer(move || {
+                    let s = step.load(Ordering::Relaxed).wrapping_mul(6364136223846793005).wrapping_add(1442695040888963407);
+                    step.store(s, Ordering::Relaxed);
+                    let v = c.load(Ordering::Relaxed).wrapping_add(1 + (s >> 58));
+                    c.store(v, Ordering::Relaxed);
+                    v
+                });
+                j.set_rounds(2);
+                use rand_core::RngCore;
+                let _ = j.next_u32();
+                let _ = j.next_u64();
+                let mut buf = [0u8; 13];
+                j.fill_bytes(&mut buf);
+                let _ = j.timer_stats(true);
+                if n % 16 == 0 {
+                    let _ = j.test_timer();
+                }
+                n += 1;
+                continue;
+            }
             x = x.wrapping_mul(6364136223846793005).wrapping_add(1442695040888963407);
             let b = match n % 3 {
                 0 => construct(k, Ctor::SeedFromU64(x)),
